@@ -161,7 +161,7 @@ Section StepP2.
   Let HQ := quorums_intersect_one' cfg HVn.
 
   Theorem cinv_deliver g C LL A V k cut fs g' : cinv cfg Ps g C LL A V ->
-    cstep false [cfg] g (CBase (LDeliver k cut fs)) = Some g' -> exists A', cinv cfg Ps g' C LL A' V.
+    cstep false [cfg] g (CBase (LDeliver k cut fs)) = Some g' -> exists An, cinv cfg Ps g' C LL (An ++ A) V.
   Proof.
     intros HI Hstep. apply cstep_base_inv in Hstep. destruct Hstep as (_ & l' & Hl & ->).
     pose proof (cv_l cfg Ps g C LL A V HI) as Hlinv. pose proof (ci_ok C LL (cv_ci cfg Ps g C LL A V HI)) as HC.
@@ -180,7 +180,7 @@ Section StepP2.
       destruct (deliver_nlog cfg Ps HVn g C LL A V HI nj s m Hinj Hr (nth_error_In _ _ Hk) (eq_sym Hidj) cut fs r' ob out Hsf) as [_ Hlead'].
       rewrite (refresh_handler (cnodes g) (am_to m) nj r' _ (nodes_nodup cfg Ps g C LL A V HI) Hfj).
       2:{ intros s' -> Hrole. destruct (Hlead' s' eq_refl Hrole) as (_ & _ & _ & _ & ->). rewrite Hr. exact Hrole. }
-      exists (accept_of (am_to m) (am_req m) ob ++ A).
+      exists (accept_of (am_to m) (am_req m) ob).
       eapply (cinv_deliver_up cfg Ps HVn g _ C LL A V k m nj s cut fs r' ob out HI Hk Hfj Hr Hsf); try reflexivity.
       + exact Hl1.
       + cbn [cg_ans]. destruct ob; try reflexivity; symmetry; apply app_nil_r.
@@ -191,7 +191,7 @@ Section StepP2.
     - (* the target is down: nothing happens *)
       simpl in Hsf. inversion Hsf; subst r' ob out.
       rewrite (refresh_handler (cnodes g) (am_to m) nj (Down sd) _ (nodes_nodup cfg Ps g C LL A V HI) Hfj) by (intros s' H; discriminate).
-      exists A. set (nj' := mkGN (gn_P nj) (Down sd) (keep_sess (Down sd) (gn_sess nj)) (gn_next nj)).
+      exists []. cbn [app]. set (nj' := mkGN (gn_P nj) (Down sd) (keep_sess (Down sd) (gn_sess nj)) (gn_next nj)).
       match goal with |- cinv _ _ ?G _ _ _ _ => set (g' := G) end.
       apply (cinv_quiet cfg Ps HVn g g' C LL A V [] [] (am_to m) nj nj' HI Hfj Hidj eq_refl Hl1).
       + rewrite Hr. apply quiet_refl.
